@@ -179,6 +179,11 @@ def relational(fact):
         nz = [x for x in t[1] if x != ("int", 0)]
         if len(nz) == 1 and len(nz) < len(t[1]):
             return relational(("eq", nz[0], True))
+    if isinstance(t, tuple) and t and t[0] == "phi" and not truth:
+        # `!present || b` lowered to a value: phi(true, b) is false only through b
+        nt = [x for x in t[1] if x != ("int", 1)]
+        if len(nt) == 1 and len(nt) < len(t[1]):
+            return relational(("eq", nt[0], False))
     if isinstance(t, tuple) and t[0] == "bin" and t[1] in CMP_NEG:
         op = t[1] if truth else CMP_NEG[t[1]]
         a, b = t[2], t[3]
